@@ -15,16 +15,16 @@ T = {
  "C03": ("runtime monitoring: band/edge-direction oracle over executions", "band spacing, no flat edge, downward edges on acyclic inputs, upward iff ArrowHeadStart on every explored call", "bands are recognised by equal Y per component (union-find on the input); LayerSpacing > 0"),
  "C04": ("runtime monitoring: pairwise rectangle and same-band gap oracle over executions", "no overlapping node rectangles, same-band gaps >= NodeSpacing, finite non-negative coordinates for the four size-aware positioners", "exact comparison for dyadic inputs, 1e-9 relative otherwise; spacing clause judged for LayerSpacing > 0 only (bands recognised by Y)"),
  "C05": ("runtime monitoring: anchor/arrowhead oracle over executions", "first/last route point = bottom-centre/top-centre of the upper/lower endpoint computed from the returned rectangles, arrowhead end at ToID", "anchors compared exactly (dyadic) or with 1e-9 relative tolerance"),
- "C06": ("runtime monitoring: per-style route shape oracle over executions", "straight=2 points; polyline=span+1 points, monotone y, bends outside nodes, one helper node per bend; ortho=axis-parallel segments; splines=4k points with joined pieces", "spans derived from bands of the returned drawing"),
- "C07": ("runtime monitoring: repeated execution in one process and across fresh processes, byte-wise comparison; deep-copy comparison of caller data", "identical canonical output over 6 (16) repetitions and across two fresh processes (the second built with go1.26.8); the edge list and the very size map handed to the library equal their clones after every call", "map-order nondeterminism is probabilistic: silence means not observed in r repetitions x 2 processes"),
- "C08": ("runtime monitoring: metamorphic relation Layout(rename(G)) = rename(Layout(G)) over executions", "five adversarial injective renamings per case (helper alphabets V<n>/NE<n>, permutation, hostile strings) leave the layout unchanged byte for byte", "mismatches are charged only when both sides are self-consistent (otherwise C07)"),
+ "C06": ("runtime monitoring: per-style route shape oracle over executions", "straight=2 points; polyline=span+1 points, monotone y, bends outside nodes, one helper node per bend; ortho=axis-parallel segments; splines=4k points with joined pieces", "spans derived from bands of the returned drawing; with LayerSpacing 0 and zero-height bands (abutting bands) from a second run that differs in the layer spacing only"),
+ "C07": ("runtime monitoring: repeated execution in one process and across fresh processes, byte-wise comparison; deep-copy comparison of caller data", "identical canonical output over 6 (16) repetitions and across two fresh processes (the second built with go1.26.8); the edge list and the very size map handed to the library equal their clones after every call; a call with other algorithms on the same source between two repetitions changes nothing; a result kept by the caller is unchanged after later calls (retained-result monitor, all sequential checks)", "map-order nondeterminism is probabilistic: silence means not observed in r repetitions x 2 processes"),
+ "C08": ("runtime monitoring: metamorphic relation Layout(rename(G)) = rename(Layout(G)) over executions", "seven adversarial injective renamings per case (helper alphabets V<n>/NE<n>, permutation, hostile strings, mixed, colliding concatenations, look-alikes that coincide after trimming/number parsing/case folding) leave the layout unchanged byte for byte", "mismatches are charged only when both sides are self-consistent (otherwise C07)"),
  "C09": ("runtime monitoring: metamorphic relation union vs parts over executions", "every component of a union equals its stand-alone layout up to one horizontal translation; component extents disjoint and NodeSpacing apart (size-aware positioners)", "exact for dyadic inputs; spline control points compared with 1e-9 relative tolerance"),
  "C10": ("runtime monitoring: per-instance optimality certificate (LP duality, Dinic max-flow on tight edges) over executions, cross-checked against brute force for <= 7 nodes; iteration-cap hook H2", "total edge span is minimal and real nodes occupy contiguous layers on every judged run; capped runs are counted and excluded", "layer numbers derived from Y with uniform heights and helper nodes in the output; unit edge weights"),
  "C11": ("runtime monitoring: independent longest-path DP oracle over executions", "layer count = longest drawn path, every node sits longest-path-to-sink layers above the bottom layer of its component", "layer numbers derived from Y with uniform heights and helper nodes in the output"),
  "C12": ("runtime monitoring: recording monitor (public Monitor interface) + naive O(S^2) crossing count on the returned polylines", "reported crossing number equals the crossings of the drawing (x-order definition) incl. graphs with > 64 layers and wide layers", "simple graphs, NodeSpacing > 0, LayerSpacing > 0"),
  "C13": ("runtime monitoring: crossing-count oracle over executions; exhaustive enumeration of small rooted trees", "all parent-vector trees with <= 7 (8) nodes in both orientations plus random trees up to 200 nodes are drawn without crossings", "exhaustive in tree shape only; edge orders and relabellings are sampled"),
- "C14": ("runtime monitoring: per flagged edge acyclicity oracle over executions", "every edge reversed by the depth-first breaker is necessary; acyclic multigraphs come back without any reversed edge (all three breakers)", "reversal observed through ArrowHeadStart"),
- "C15": ("runtime monitoring: Go race detector over a concurrent workload + sequential-reference equality + quiescent-state invariant on package globals (hook H4)", "zero race reports, every concurrent result equals its sequential reference, globals idle and defaults unchanged after each batch", "the static enumeration of package-level writes named in the quantifier is NOT done (out of family); races are only seen on executed paths and occurred interleavings"),
+ "C14": ("runtime monitoring: per flagged edge acyclicity oracle over executions", "every edge reversed by the depth-first breaker is necessary; acyclic multigraphs come back without any reversed edge (all three breakers); also when the same edge list was laid out with the other breaker just before", "reversal observed through ArrowHeadStart"),
+ "C15": ("runtime monitoring: Go race detector over a concurrent workload + sequential-reference equality + quiescent-state invariant on package globals (hook H4)", "zero race reports, every concurrent result equals its sequential reference (batches of similar inputs, wide layers, small graphs next to large ones, CPU starvation), globals idle and defaults unchanged after each batch", "the static enumeration of package-level writes named in the quantifier is NOT done (out of family); races are only seen on executed paths and occurred interleavings"),
  "C16": ("runtime monitoring: arithmetic identity oracle over executions", "band extent, neighbour gaps, leftmost x = 0, common midpoint (VAlign) / common right end (PackRight) hold exactly on every explored call", "connected inputs; exact for dyadic inputs, 1e-9 relative otherwise"),
  "C17": ("runtime monitoring: metamorphic relation under scaling by 2^k over executions", "scaling sizes and spacings by 2^k scales the canonical output bit for bit, k in -3..6", "network simplex positioner and splines are outside the property"),
  "C18": ("runtime monitoring: offline checker over recorded histories on a logical clock + quiescent-state invariant (hook H4)", "every monitor event lies inside a call that was given that monitor, also after panicking calls; layouts with and without monitor are identical; globals idle after every call", "events are attributed by logical interval, not by count"),
